@@ -24,6 +24,7 @@
 #include <map>
 #include <set>
 #include <string>
+#include <type_traits>
 #include <vector>
 
 #include "mjgen.h"
@@ -99,7 +100,7 @@ static void restore(const Snap& s, mjData* d) {
   memcpy((char*)d->arena + d->narena - s.pstack, s.hi.data(), s.hi.size());
 }
 
-struct Region { std::string name; int aid; const char* base; size_t esz; size_t n; int ignore; };
+struct Region { std::string name; int aid; const char* base; size_t esz; size_t n; int ignore; int isnum; };
 static std::vector<Region> g_reg;
 static std::map<std::string, int> g_aid;
 static int aid_of(const std::string& nm) {
@@ -116,10 +117,11 @@ static int aid_of(const std::string& nm) {
   g_aid[nm] = id;
   return id;
 }
-static void add_region(const std::string& nm, const void* base, size_t esz, size_t n, int ignore = 0) {
+static void add_region(const std::string& nm, const void* base, size_t esz, size_t n, int ignore = 0, int isnum = 0) {
   if (!base || !n || !esz) return;
-  g_reg.push_back(Region{nm, aid_of(nm), (const char*)base, esz, n, ignore});
+  g_reg.push_back(Region{nm, aid_of(nm), (const char*)base, esz, n, ignore, isnum});
 }
+#define C02_ISNUM(type) (std::is_same<type, mjtNum>::value ? 1 : 0)
 
 static void build_regions(const mjModel* m, mjData* d, int site, mjTaskFunc func, void* arg, int ntask) {
   g_reg.clear();
@@ -133,7 +135,7 @@ static void build_regions(const mjModel* m, mjData* d, int site, mjTaskFunc func
 #undef X
   add_region("threadlock", &d->threadlock, sizeof(d->threadlock), 1, 1);
   // buffer arrays
-#define X(type, name, nr, nc) add_region(#name, d->name, sizeof(type), (size_t)(m->nr) * (nc));
+#define X(type, name, nr, nc) add_region(#name, d->name, sizeof(type), (size_t)(m->nr) * (nc), 0, C02_ISNUM(type));
   MJDATA_POINTERS
 #undef X
   // arena arrays
@@ -141,7 +143,7 @@ static void build_regions(const mjModel* m, mjData* d, int site, mjTaskFunc func
 #define MJ_D(n) (d->n)
 #undef MJ_M
 #define MJ_M(n) (m->n)
-#define X(type, name, nr, nc) if (strcmp(#name, "contact")) add_region(#name, d->name, sizeof(type), (size_t)(nr) * (nc));
+#define X(type, name, nr, nc) if (strcmp(#name, "contact")) add_region(#name, d->name, sizeof(type), (size_t)(nr) * (nc), 0, C02_ISNUM(type));
   MJDATA_ARENA_POINTERS
 #undef X
 #undef MJ_D
@@ -157,7 +159,7 @@ static void build_regions(const mjModel* m, mjData* d, int site, mjTaskFunc func
     add_region("epabuffer", ci.epabuffer, 1, (size_t)ci.ccd_size * mju_numThread(d));
   } else if (site == 2) {
     c02TacInfo ti; c02_tac_info(m, arg, ntask, &ti);
-    add_region("forcesT", ti.forcesT, sizeof(mjtNum), (size_t)3 * ti.ntaxel);
+    add_region("forcesT", ti.forcesT, sizeof(mjtNum), (size_t)3 * ti.ntaxel, 0, 1);
   }
 }
 
@@ -378,6 +380,30 @@ static void fp_dispatch(const mjModel* m, mjData* d, mjTaskFunc func, void* arg,
     func(m, d, arg, 0, k);
     std::string w; long nd = differs(F, d, &w);
     if (nd) printf("X reads-other task %d rerun after all other tasks gives different outputs at %ld locations: %s\n", k, nd, w.c_str());
+  }
+  // NaN taint: every floating-point location another task writes is set to NaN before the task runs alone; a task that
+  // reads such a location (even multiplied by an exact zero) produces different outputs
+  for (int k = 0; k < ntask; k++) {
+    restore(S0, d);
+    long ntaint = 0;
+    for (int j = 0; j < ntask; j++) if (j != k) for (const Loc& l : obs[j].locs) {
+      if (l.aid == epa) continue;
+      for (const Region& r : g_reg) if (r.aid == l.aid && r.isnum && (size_t)l.elem < r.n) {
+        ((mjtNum*)r.base)[l.elem] = NAN; ntaint++; break;
+      }
+    }
+    if (!ntaint) continue;
+    func(m, d, arg, 0, k);
+    long bad = 0; std::string w;
+    for (auto& pr : obs[k].bytes) {
+      const Region* r = find_region(pr.first);
+      if (r && r->aid == epa) continue;
+      if ((unsigned char)*pr.first != pr.second) {
+        bad++;
+        if (w.size() < 160 && r) { std::string e = r->name + "[" + std::to_string((pr.first - r->base) / r->esz) + "] "; if (w.find(e) == std::string::npos) w += e; }
+      }
+    }
+    if (bad) printf("X reads-other-task-output task %d run alone with the floating-point outputs of the other tasks preset to NaN changes %ld output bytes: %s\n", k, bad, w.c_str());
   }
   restore(F, d);
   {
